@@ -267,6 +267,25 @@ LEMMAS = {
 }
 
 
+LEMMAS["ceil_units_bounds"] = _lem(  # u = ceil(x / a): u*a >= x > (u-1)*a ; x >= 0 ==> u >= 0 ; x >= 1 ==> u >= 1
+    2,
+    lambda x, a: z3.Implies(a >= 1, z3.And(((x + a - 1) / a) * a >= x, (((x + a - 1) / a) - 1) * a < x,
+                                           z3.Implies(x >= 0, (x + a - 1) / a >= 0), z3.Implies(x >= 1, (x + a - 1) / a >= 1))),
+    lambda x, a: a < 1 or (((x + a - 1) // a) * a >= x > (((x + a - 1) // a) - 1) * a and (x < 0 or (x + a - 1) // a >= 0) and (x < 1 or (x + a - 1) // a >= 1)),
+    [_G, _G],
+)
+LEMMAS["mul_le_cancel"] = _lem(  # p*m <= t*m, m >= 1 ==> p <= t
+    3,
+    lambda p, t, m: z3.Implies(z3.And(m >= 1, p * m <= t * m), p <= t),
+    lambda p, t, m: not (m >= 1 and p * m <= t * m) or p <= t,
+    [_G, _G, _G],
+)
+LEMMAS["mul_mono"] = _lem(  # a <= b, m >= 0 ==> a*m <= b*m
+    3,
+    lambda a, b, m: z3.Implies(z3.And(m >= 0, a <= b), a * m <= b * m),
+    lambda a, b, m: not (m >= 0 and a <= b) or a * m <= b * m,
+    [_G, _G, _G],
+)
 LEMMAS["div_nonneg"] = _lem(
     2,
     lambda a, n: z3.Implies(z3.And(a >= 0, n >= 1), a / n >= 0),
